@@ -30,6 +30,7 @@ func init() {
 			ruleC11M6(r)
 			ruleNameAgreement(r, "M8", "/encoding/convert")
 			ruleC11M7(r)
+			ruleErrorsChecked(r, "M9", "/encoding/convert", 50)
 		},
 	})
 }
